@@ -43,6 +43,10 @@ type Chan struct {
 	// "" nothing, "eof" CHANNEL_EOF, "close" CHANNEL_CLOSE, "eof+close" both.
 	// Buffered data must stay readable afterwards.
 	PeerEnds string `json:"peer_ends,omitempty"`
+	// LocalEOF (system B) > 0: the local side half-closes the channel
+	// (CloseWrite) once LocalEOF-1 bytes of the data stream were read, and
+	// keeps reading.
+	LocalEOF int `json:"local_eof,omitempty"`
 }
 
 type Send struct {
@@ -128,6 +132,9 @@ func gen(r *rand.Rand, prop, tier string, index int) any {
 			c.Send = append(c.Send, sd)
 		}
 		c.PeerEnds = []string{"", "", "eof", "close", "eof+close"}[r.IntN(5)]
+		if r.IntN(4) == 0 {
+			c.LocalEOF = 1 + []int{0, 0, 1, 1000, 100000}[r.IntN(5)]
+		}
 		if big && c.ReadSize < 1000 {
 			c.ReadSize = 1000 + r.IntN(50000) // byte-wise reads of megabytes only cost time
 		}
@@ -392,7 +399,14 @@ func (r *run) reader(i, stream int) {
 	}
 	want := r.wantBytes(i, stream)
 	buf := make([]byte, cs.ReadSize)
+	eofSent := false
 	for r.readGot[i][stream] < want {
+		if stream == 0 && cs.LocalEOF > 0 && !eofSent && r.readGot[i][0] >= cs.LocalEOF-1 {
+			// half-close: our sending direction ends, reading goes on
+			eofSent = true
+			ch.CloseWrite()
+			rt.Fault("local-closewrite-while-reading")
+		}
 		n, err := src.Read(buf)
 		for j := 0; j < n; j++ {
 			if buf[j] != content(i, uint32(stream), r.readGot[i][stream]+j) {
@@ -782,6 +796,13 @@ func shrink(scn any) []any {
 			func(c *Chan) bool {
 				if c.LazyRead {
 					c.LazyRead = false
+					return true
+				}
+				return false
+			},
+			func(c *Chan) bool {
+				if c.LocalEOF != 0 {
+					c.LocalEOF = 0
 					return true
 				}
 				return false
